@@ -110,6 +110,15 @@ func (a *Agent) Run(ctx context.Context) error {
 		return a.dryRun()
 	}
 
+	// Take the run lock of the DAG file. Probing the status socket and then
+	// binding it are two steps; the lock makes sure that only one process at
+	// a time goes through them and runs the DAG.
+	unlock, err := a.lockDAG()
+	if err != nil {
+		return err
+	}
+	defer unlock()
+
 	// Check if the DAG is already running.
 	if err := a.checkIsAlreadyRunning(); err != nil {
 		return err
@@ -501,6 +510,28 @@ func (a *Agent) checkPreconditions() error {
 		return err
 	}
 	return nil
+}
+
+// lockDAG takes an exclusive, non-blocking lock on a lock file next to the
+// DAG's status socket and holds it until the returned function is called.
+// The kernel releases the lock when the process ends, however it ends, so a
+// killed run never leaves the DAG locked.
+func (a *Agent) lockDAG() (func(), error) {
+	f, err := os.OpenFile(
+		a.dag.SockAddr()+".lock", os.O_CREATE|os.O_RDWR, 0600,
+	)
+	if err != nil {
+		return nil, err
+	}
+	if err := syscall.Flock(
+		int(f.Fd()), syscall.LOCK_EX|syscall.LOCK_NB,
+	); err != nil {
+		_ = f.Close()
+		return nil, fmt.Errorf(
+			"%w. socket=%s", errDAGIsAlreadyRunning, a.dag.SockAddr(),
+		)
+	}
+	return func() { _ = f.Close() }, nil
 }
 
 // checkIsAlreadyRunning returns error if the DAG is already running.
